@@ -814,6 +814,20 @@ def check_record_layout(ck, rule, prog, wbody, rbody, owner_rx, label, reader_in
             n += 1
             cands = _zeroings(total)
             ck.ob(rule, "%s/length-check/%s" % (label, _afmt(a).replace(" ", "")), a in cands, "%s validates the input length against %s; the record %s writes has %s bytes%s" % (rbody.short, _afmt(a), wbody.short, _afmt(total), "" if a in cands else " (no choice of empty variable parts gives that bound)"), where=rbody.where(d.line))
+            # ... and a record of EXACTLY that many bytes is one the encoder can emit (the variable parts left out of the bound are empty):
+            # the branch taken for `len == bound` must not be the rejecting one
+            if a in cands:
+                from engines import compare_switches, relation_cases
+                for cs in compare_switches(rbody, R.pv):
+                    if cs["line"] != d.line or cs["op"] != d.rv["op"]:
+                        continue
+                    cases = relation_cases(cs, swap=(r == S("LEN")))
+                    eq_tg = cases.get("eq")
+                    if eq_tg is None:
+                        continue
+                    rejects_eq = fails_from(rbody, eq_tg)
+                    ck.ob(rule, "%s/length-check/%s/accepts-exact" % (label, _afmt(a).replace(" ", "")), not rejects_eq, "%s %s an input of exactly %s bytes%s" % (rbody.short, "accepts" if not rejects_eq else "REJECTS", _afmt(a), "" if not rejects_eq else ": the encoder emits records of that size (empty variable parts), so the library's own output is refused"), where=rbody.where(d.line))
+                    break
     return n
 
 
